@@ -39,6 +39,21 @@ def chunk_worker(job):
         for S in (rng.sample(subsets, min(len(subsets), 2)) if tier == "quick" else subsets):
             cases.append({"prog": prog, "lazy": sorted(S), "style": rng.choice(["static", "symbolic", "unknown"]),
                           "sizes": prog["gen_sizes"], "seed": seed})
+    if 0 in seeds or any(sd % 40 == 0 for sd in seeds):
+        # directed: casts whose text depends on who performs them (NumPy vs the ONNX Cast operator) applied to arrays derived
+        # from data-holding inputs -- the evaluator's presence must not decide which one runs
+        for src in ("float64", "float32", "bool", "int32", "nfloat64"):
+            for first in ({"op": "multiply", "args": [["in", 0], ["py", 2]], "params": {}}, {"op": "greater", "args": [["in", 0], ["py", 1]], "params": {}},
+                          {"op": "copy", "args": [["in", 0]], "params": {}}):
+                if src == "bool" and first["op"] != "copy":
+                    first = {"op": "logical_not", "args": [["in", 0]], "params": {}}
+                tgt = "nutf8" if src.startswith("n") else "utf8"
+                prog = {"inputs": [{"dtype": src, "dims": [3]}],
+                        "steps": [first, {"op": "astype", "args": [["st", 0]], "params": {"dtype": tgt}},
+                                  {"op": "astype", "args": [["in", 0]], "params": {"dtype": tgt}}],
+                        "gen_sizes": {"A": 2, "B": 3, "U": 1}, "seed": 1}
+                for S in ([], [0]):
+                    cases.append({"prog": prog, "lazy": S, "style": "static", "sizes": prog["gen_sizes"], "seed": 1})
     child = noort.trace_without_ort(cases)
     recs = []
     for case, crec in zip(cases, child):
